@@ -125,12 +125,18 @@ def rule_lists(atoms, contexts, k, thin=1):
 
 
 class PolicySession(BusSession):
-    def __init__(self, rules):
+    def __init__(self, rules, start_permissive=False):
         self.rules = rules
+        self.start_permissive = start_permissive
         BusSession.__init__(self, {})
 
-    def config(self):
+    def target_config(self):
         return B.make_config(policy=P.to_xml(self.rules), bustype=None)
+
+    def config(self):
+        # reload variant: the bus starts with an allow-everything policy, the connections are made and take their
+        # names, and only then the configuration under test is loaded with a reload (what SIGHUP does)
+        return B.make_config(bustype=None) if self.start_permissive else self.target_config()
 
 
 def expect_reply(sess, l, member, body):
@@ -138,13 +144,13 @@ def expect_reply(sess, l, member, body):
     return rep is not None and rep.kind == R.MT_RETURN
 
 
-def probe_config(base, test, family):
+def probe_config(base, test, family, reload=False):
     """-> (violations, stats)"""
     rules = [dict(r) for r in base] + [dict(r) for r in test]
     out = []
     stats = {'probes': 0, 'unspec': 0, 'allowed': 0, 'denied': 0, 'unrealisable': 0}
     try:
-        sess = PolicySession(rules)
+        sess = PolicySession(rules, start_permissive=reload)
     except B.BusError as e:
         stats['unrealisable'] += 1
         stats['config-rejected'] = 1
@@ -173,6 +179,24 @@ def probe_config(base, test, family):
     if not ok:
         stats['unrealisable'] += 1
         return out, stats
+    held = {}
+    if reload:
+        if family == 'own':
+            # S already owns some of the probed names and waits in the queue of others (Q owns those) BEFORE the policy
+            # under test is loaded: the own rules must be evaluated on every request, also for these
+            for name in ('a.x', 'a.y', 'b.c'):
+                if expect_reply(sess, 'S', 'RequestName', [R.S(name), R.U(1)]):
+                    held[name] = 'owner'
+            for name in ('a.x.y', 'z.z'):
+                if expect_reply(sess, 'Q', 'RequestName', [R.S(name), R.U(0)]) and expect_reply(sess, 'S', 'RequestName', [R.S(name), R.U(0)]):
+                    held[name] = 'queued'
+        try:
+            sess.bus.reload(sess.target_config())
+        except B.BusError:
+            stats['unrealisable'] += 1
+            stats['config-rejected'] = 1
+            return out, stats
+        stats['reloaded'] = 1
     for l in ('R', 'Q', 'S'):
         sess.take(l)
     peers = {'R': P.Peer(primary={'a.b', 'a.b.c', sess.uname['R'].decode()}, queued={'q.name'}),
@@ -290,7 +314,11 @@ def probe_config(base, test, family):
                 stats['unspec'] += 1
                 continue
             stats['allowed' if want else 'denied'] += 1
-            if want:
+            if want and name in held:
+                code = 4 if held[name] == 'owner' else 2          # ALREADY_OWNER / IN_QUEUE (DO_NOT_QUEUE would leave the queue: EXISTS)
+                if rep is None or rep.kind != R.MT_RETURN or rep.args() not in ([code], [3]):
+                    out.append(Violation('allowed-but-refused', 'own-rerequest', 'after reload RequestName(%r) by its %s answered %r; documented evaluation allows; test rules %r' % (name, held[name], rep, test), None))
+            elif want:
                 if rep is None or rep.kind != R.MT_RETURN or rep.args() != [1]:
                     out.append(Violation('allowed-but-refused', 'own', 'RequestName(%r) answered %r; documented evaluation allows; test rules %r' % (name, rep, test), None))
                 else:
@@ -307,14 +335,14 @@ def probe_config(base, test, family):
 
 
 def task_configs(t):
-    family, base_name, lists = t
+    family, base_name, lists = t[:3]
     base = {'open': OPEN_BASE, 'closed-send': CLOSED_SEND_BASE, 'closed-recv': CLOSED_RECV_BASE, 'closed-own': CLOSED_OWN_BASE}[base_name]
     out = []
     stats = {}
     for test in lists:
-        case = {'family': family, 'base': base_name, 'test': test}
+        case = {'family': family, 'base': base_name, 'test': test, 'reload': bool(t[3]) if len(t) > 3 else False}
         try:
-            vs, st = probe_config(base, test, family)
+            vs, st = probe_config(base, test, family, reload=bool(t[3]) if len(t) > 3 else False)
         except HarnessDied as e:
             out.append(crash_violation(e, case))
             worker_bus().h.close()
@@ -338,6 +366,11 @@ def build_tasks(tier):
     def add(family, base, lists):
         for i in range(0, len(lists), 25):
             tasks.append((family, base, lists[i:i + 25]))
+        # the same configuration reached by RELOAD from an allow-everything start (every 4th list in the quick tier):
+        # the decisions must be the same as on a fresh bus, also for connections that already hold or wait for names
+        rl = lists[::(4 if quick else 1)] if family != 'own' else lists
+        for i in range(0, len(rl), 25):
+            tasks.append((family, base, rl[i:i + 25], 1))
     send = atomic_send_rules()
     recv = atomic_recv_rules()
     own = atomic_own_rules()
@@ -381,7 +414,7 @@ def run(ctx):
     ctx.coverage.update({
         'states': configs, 'transitions': stats.get('probes', 0), 'traces_validated_against_impl': stats.get('probes', 0),
         'configurations': configs, 'probes': stats.get('probes', 0), 'judged_allowed': stats.get('allowed', 0), 'judged_denied': stats.get('denied', 0),
-        'unspecified_not_judged': stats.get('unspec', 0), 'unrealisable_setups': stats.get('unrealisable', 0),
+        'unspecified_not_judged': stats.get('unspec', 0), 'unrealisable_setups': stats.get('unrealisable', 0), 'configurations_reached_by_reload': stats.get('reloaded', 0),
         'bound': 'rule lists of <= 2 atomic rules (%d send atoms, %d receive atoms, %d own atoms) x {allow,deny} x 3 contexts over open and closed bases%s; ~17 probes per configuration' %
                  (len(atomic_send_rules()), len(atomic_recv_rules()), len(atomic_own_rules()), ' (pairs thinned 1:9)' if ctx.tier == 'quick' else ''),
         'tasks': len(tasks), 'tasks_done': done,
@@ -392,5 +425,5 @@ def run(ctx):
 
 
 def replay(case):
-    r = task_configs((case['family'], case['base'], [case['test']]))
+    r = task_configs((case['family'], case['base'], [case['test']], 1 if case.get('reload') else 0))
     return [Violation.from_json(v) for v in r['viol']]
